@@ -216,7 +216,24 @@ var histCheck = hx.NewCheck("reuse_history", run)
 var dialects = []string{"mysql", "postgresql", "sqlserver", "sqlite", "oracle"}
 
 func genSQL(rt *rapid.T, label string) (string, string) {
-	switch rapid.IntRange(0, 9).Draw(rt, label) {
+	switch rapid.IntRange(0, 12).Draw(rt, label) {
+	case 12: // every quoting form the tokenizer has a reader for (used and fresh instance must read them alike)
+		return rapid.SampledFrom([]string{"SELECT '''hello'''", "SELECT 'secret-value', \"quoted id\", `back tick`", "SELECT '''a''' , 'b'", "SELECT $tag$ body $tag$ , '''x'''", "SELECT 'unterminated"}).Draw(rt, "quoting"), "quoting_forms"
+	case 10: // one line with tabs: columns are not byte offsets + 1
+		g := sqlgen.New(rt, smallFeatures())
+		toks := sqlgen.Statement(g).Toks
+		var sb strings.Builder
+		for i, tk := range toks {
+			if i > 0 {
+				sb.WriteString(rapid.SampledFrom([]string{"\t", " ", "\t\t", " \t"}).Draw(rt, "tabsep"))
+			}
+			sb.WriteString(tk.Text)
+		}
+		return sb.String(), "tabbed_line"
+	case 11: // first token far into the first line (after blanks, tabs or a comment)
+		lead := rapid.SampledFrom([]string{"          ", "\t", "                                        ", "/* lead */   ", " \t \t ", "                    "}).Draw(rt, "lead")
+		g := sqlgen.New(rt, smallFeatures())
+		return lead + sqlgen.SQL(sqlgen.Statement(g).Toks), "indented_first_line"
 	case 0, 1, 2:
 		g := sqlgen.New(rt, smallFeatures())
 		return sqlgen.SQL(sqlgen.Statement(g).Toks), "valid"
@@ -253,7 +270,11 @@ func smallFeatures() sqlgen.Features {
 func genProbe(rt *rapid.T) Op {
 	entry := rapid.SampledFrom([]string{"plain", "ctx", "pos", "recovery", "cancelled"}).Draw(rt, "probeentry")
 	var sql string
-	switch rapid.IntRange(0, 4).Draw(rt, "probekind") {
+	switch rapid.IntRange(0, 6).Draw(rt, "probekind") {
+	case 5:
+		sql = rapid.SampledFrom([]string{"          SELECT a FROM t", "SELECT '''hello'''", "SELECT '''a''' , \"b\""}).Draw(rt, "fixedprobe")
+	case 6:
+		sql = "      \t  SELECT 'unterminated"
 	case 0: // as deep as a fresh parser accepts
 		sql = "SELECT " + strings.Repeat("(", maxDepthOK) + "1" + strings.Repeat(")", maxDepthOK)
 	case 1:
